@@ -150,9 +150,10 @@ def build_tool(name, sources, repo, extra=None):
             h.update(open(os.path.join(VERIF, "harness", f), "rb").read())
     h.update(repo["akey"].encode())
     # headers of /repo that the tool includes are covered by preprocessing
-    pre = run(["g++", "-E", "-P", "-I" + REPO, "-I" + os.path.join(VERIF, "harness")] +
-              [f for f in repo["flags"] if f.startswith("-D")] + srcs[:1])
-    h.update(pre.stdout)
+    for one in srcs:
+        pre = run(["g++", "-E", "-P", "-I" + REPO, "-I" + os.path.join(VERIF, "harness")] +
+                  [f for f in repo["flags"] if f.startswith("-D")] + [one])
+        h.update(pre.stdout)
     out = os.path.join(BUILD, "tools", "%s_%s" % (name, h.hexdigest()[:16]))
     os.makedirs(os.path.dirname(out), exist_ok=True)
     with Lock("tool_" + name):
@@ -186,7 +187,8 @@ def write_if_changed(path, text):
 
 def run_translator(repo):
     """Re-emit lean/NakenVerif/Generated/*.lean from the current sources."""
-    exe = build_tool("nv_dump", ["nv_dump.cpp"], repo)
+    extra = sorted(f for f in os.listdir(os.path.join(VERIF, "harness")) if f.startswith("nv_dump_") and f.endswith(".cpp"))
+    exe = build_tool("nv_dump", ["nv_dump.cpp"] + extra, repo)
     r = run([exe], env=SAN_ENV)
     if r.returncode != 0:
         raise BuildError("nv_dump failed: " + r.stderr.decode()[:2000])
